@@ -504,6 +504,86 @@ def gen_bursts(r, n):
     return init, bursts
 
 
+def gen_paced(r, n):
+    """histories in the regime of the theorem WD.Pipe.paced_run: every burst is ONE operation of any kind (a drained
+    operation: directory trees renamed, moved out and in, removed), a storm of file operations, or a nested creation
+    burst of random shape and depth (mkdirs and file creations, inside old and inside brand-new directories at once).
+    Returns (init ops, [burst, ...])"""
+    init = [("mkdir", "W/d"), ("create", "W/d/a"), ("mkdir", "W/d/dd"), ("mkdir", "O/d"), ("mkdir", "O/d/dd"), ("create", "O/d/dd/b"),
+            ("create", "W/b")]
+    dirs = {"W", "W/d", "W/d/dd"}          # directories of the tree (tracked so that every operation is valid)
+    files = {"W/d/a", "W/b"}
+    outside = {"O/d": ({"O/d", "O/d/dd"}, {"O/d/dd/b"})}
+    bursts = []
+    used = 0
+
+    def rekey(old, new):
+        nonlocal dirs, files
+        dirs = {new + q[len(old):] if (q == old or q.startswith(old + "/")) else q for q in dirs}
+        files = {new + q[len(old):] if q.startswith(old + "/") else q for q in files}
+
+    for _ in range(n):
+        used += 1
+        k = r.random()
+        if k < 0.45:        # nested creation burst
+            ops, newd = [], []
+            for i in range(r.randint(3, 9)):
+                base = r.choice(sorted(dirs) + newd * 3)
+                if base.count("/") >= 5:
+                    continue
+                name = f"{base}/g{used}_{i}"
+                if r.random() < 0.6:
+                    ops.append(("mkdir", name)); newd.append(name)
+                else:
+                    ops.append(("create", name)); files.add(name)
+            dirs.update(newd)
+            if ops:
+                bursts.append(ops)
+        elif k < 0.65:      # file storm
+            ops = []
+            fl = sorted(files)
+            for i in range(r.randint(3, 8)):
+                c = r.random()
+                if c < 0.3 or not fl:
+                    f = r.choice(sorted(dirs)) + f"/s{used}_{i}"
+                    ops.append(("create", f)); files.add(f); fl.append(f)
+                elif c < 0.5:
+                    ops.append((r.choice(["write", "chmod"]), r.choice(fl)))
+                elif c < 0.75:
+                    f = r.choice(fl); g = r.choice(sorted(dirs)) + f"/m{used}_{i}"
+                    ops.append(("rename", f, g)); files.discard(f); files.add(g); fl.remove(f); fl.append(g)
+                else:
+                    f = r.choice(fl); ops.append(("unlink", f)); files.discard(f); fl.remove(f)
+            bursts.append(ops)
+        else:               # one drained operation on a directory
+            sub = sorted(q for q in dirs if q != "W")
+            c = r.random()
+            if c < 0.35 and sub:                 # rename a directory tree inside the tree
+                d = r.choice(sub)
+                tgt = r.choice(sorted(q for q in dirs if not (q == d or q.startswith(d + "/")))) + f"/r{used}"
+                bursts.append([("rename", d, tgt)]); rekey(d, tgt)
+            elif c < 0.55 and sub:               # move a directory tree out
+                d = r.choice(sub)
+                o = f"O/x{used}"
+                bursts.append([("rename", d, o)])
+                outside[o] = ({o + q[len(d):] for q in dirs if q == d or q.startswith(d + "/")},
+                              {o + q[len(d):] for q in files if q.startswith(d + "/")})
+                dirs = {q for q in dirs if not (q == d or q.startswith(d + "/"))}
+                files = {q for q in files if not q.startswith(d + "/")}
+            elif c < 0.75 and outside:           # move a directory tree in
+                o = r.choice(sorted(outside))
+                od, of = outside.pop(o)
+                tgt = r.choice(sorted(dirs)) + f"/i{used}"
+                bursts.append([("rename", o, tgt)])
+                dirs.update(tgt + q[len(o):] for q in od); files.update(tgt + q[len(o):] for q in of)
+            elif sub:                            # remove a directory tree
+                d = r.choice(sub)
+                bursts.append([("rmtree", d)])
+                dirs = {q for q in dirs if not (q == d or q.startswith(d + "/"))}
+                files = {q for q in files if not q.startswith(d + "/")}
+    return init, bursts
+
+
 def run_bursts(init_ops, bursts, recursive=True, full=False, small_reads=False, vanish_at=None, rm_fault_at=None):
     """every burst is issued while the reader is held off; returns the delivered events per burst, the trees and probes"""
     r = Run(recursive, full, False, small_reads=small_reads, vanish_at=vanish_at, rm_fault_at=rm_fault_at)
